@@ -30,7 +30,18 @@ fn make_boundary(op: usize) -> Box<dyn Component<RealP>> {
 pub struct BCase {
     op: usize,
     dom: usize,
+    /// per-dimension domain indices when they differ between dimensions (else empty: `dom` everywhere)
+    doms: Vec<usize>,
     xs: Vec<f64>,
+}
+impl BCase {
+    fn bounds(&self, i: usize) -> (f64, f64) {
+        if self.doms.is_empty() {
+            DOMAINS[self.dom]
+        } else {
+            DOMAINS[self.doms[i]]
+        }
+    }
 }
 
 fn coordinates(a: f64, b: f64, thorough: bool) -> Vec<f64> {
@@ -49,13 +60,17 @@ pub fn boundary_cases(thorough: bool) -> Vec<BCase> {
     for op in 0..4 {
         for (di, (a, b)) in DOMAINS.iter().enumerate() {
             for x in coordinates(*a, *b, thorough) {
-                out.push(BCase { op, dom: di, xs: vec![x] });
+                out.push(BCase { op, dom: di, doms: vec![], xs: vec![x] });
             }
             // mixed 3-d solutions: inside, below, above in one vector
             let w = b - a;
-            out.push(BCase { op, dom: di, xs: vec![a + w / 2.0, a - w, b + 1.5 * w] });
-            out.push(BCase { op, dom: di, xs: vec![*b, *a, b + w / 4.0] });
+            out.push(BCase { op, dom: di, doms: vec![], xs: vec![a + w / 2.0, a - w, b + 1.5 * w] });
+            out.push(BCase { op, dom: di, doms: vec![], xs: vec![*b, *a, b + w / 4.0] });
         }
+        // domains that differ between dimensions: every coordinate is repaired against its own bounds
+        out.push(BCase { op, dom: 0, doms: vec![0, 2, 3], xs: vec![5.0, 0.5, -2.0] });
+        out.push(BCase { op, dom: 0, doms: vec![2, 1, 1, 0], xs: vec![-4.0, -4.0, 1.5, -1.5] });
+        out.push(BCase { op, dom: 0, doms: vec![3, 1], xs: vec![0.5, 0.5] });
     }
     out
 }
@@ -64,8 +79,7 @@ type BObs = (Result<(), String>, Vec<f64>, Vec<f64>, bool);
 
 /// Apply the operator once, then once more to the result.
 fn run_boundary(c: &BCase) -> BObs {
-    let (a, b) = DOMAINS[c.dom];
-    let problem = RealP { name: "b".into(), dom: vec![a..b; c.xs.len()], kind: FKind::Sphere, instr: Instr::new() };
+    let problem = RealP { name: "b".into(), dom: (0..c.xs.len()).map(|i| c.bounds(i).0..c.bounds(i).1).collect(), kind: FKind::Sphere, instr: Instr::new() };
     let comp = make_boundary(c.op);
     let ind = Individual::<RealP>::new(c.xs.clone(), so(1.0));
     let mut st = state_with::<RealP>(vec![vec![ind]]);
@@ -97,11 +111,11 @@ fn xclass(x: f64, a: f64, b: f64) -> &'static str {
 }
 
 fn check_boundary(c: &BCase, out: &Outcome<BObs>) -> Option<(String, String)> {
-    let (a, b) = DOMAINS[c.dom];
-    let cls: Vec<&str> = c.xs.iter().map(|x| xclass(*x, a, b)).collect();
-    let cl = if cls.len() == 1 { cls[0].to_string() } else { "mixed-vector".to_string() };
+    let cls: Vec<&str> = c.xs.iter().enumerate().map(|(i, x)| xclass(*x, c.bounds(i).0, c.bounds(i).1)).collect();
+    let cl = if cls.len() == 1 { cls[0].to_string() } else if c.doms.is_empty() { "mixed-vector".to_string() } else { "mixed-domains".to_string() };
     let head = format!("C14 op={} x={}", OPS[c.op], cl);
-    let ctx = |w: String| format!("{} on domain [{}, {}] with solution {:?}: {}", OPS[c.op], a, b, c.xs, w);
+    let alldoms: Vec<(f64, f64)> = (0..c.xs.len()).map(|i| c.bounds(i)).collect();
+    let ctx = |w: String| format!("{} on domain {:?} with solution {:?}: {}", OPS[c.op], alldoms, c.xs, w);
     let (r, once, twice, shape) = match out {
         Outcome::Done(o) => o,
         Outcome::Panic(m) => return Some((format!("{} panic", head), ctx(format!("panicked: {}", m.chars().take(160).collect::<String>())))),
@@ -113,9 +127,10 @@ fn check_boundary(c: &BCase, out: &Outcome<BObs>) -> Option<(String, String)> {
     if !shape || once.len() != c.xs.len() {
         return Some((format!("{} shape", head), ctx(format!("result {:?}", once))));
     }
-    let scale = a.abs().max(b.abs()).max(b - a);
-    let tol = 4.0 * ulp(scale);
     for i in 0..c.xs.len() {
+        let (a, b) = c.bounds(i);
+        let scale = a.abs().max(b.abs()).max(b - a);
+        let tol = 4.0 * ulp(scale);
         let (x, y) = (c.xs[i], once[i]);
         if !(y >= a - tol && y <= b + tol) {
             return Some((format!("{} outside-domain", head), ctx(format!("coordinate {} became {:?}, which is outside [{}, {}]", i, y, a, b))));
@@ -146,7 +161,7 @@ fn explore_boundary_case(c: &BCase, thorough: bool, seed: u64, idx: usize) -> Va
         let (o, _) = tape::run_once(&cfg, &[], || run_boundary(c));
         runs = 1;
         if let Outcome::Done((_, once, _, _)) = &o {
-            outcomes.push(format!("{:?}", once.iter().map(|y| xclass(*y, DOMAINS[c.dom].0, DOMAINS[c.dom].1)).collect::<Vec<_>>()));
+            outcomes.push(format!("{:?}", once.iter().enumerate().map(|(i, y)| xclass(*y, c.bounds(i).0, c.bounds(i).1)).collect::<Vec<_>>()));
         }
         if let Some((s, d)) = check_boundary(c, &o) {
             viols.push((s, d, vec![]));
@@ -159,7 +174,7 @@ fn explore_boundary_case(c: &BCase, thorough: bool, seed: u64, idx: usize) -> Va
         let st = tape::explore(&cfg, &body, &mut |prefix, out, _| {
             if let Outcome::Done((_, once, _, _)) = out {
                 if outcomes.len() < 8 {
-                    let o = format!("{:?}", once.iter().map(|y| xclass(*y, DOMAINS[c.dom].0, DOMAINS[c.dom].1)).collect::<Vec<_>>());
+                    let o = format!("{:?}", once.iter().enumerate().map(|(i, y)| xclass(*y, c.bounds(i).0, c.bounds(i).1)).collect::<Vec<_>>());
                     if !outcomes.contains(&o) {
                         outcomes.push(o);
                     }
@@ -331,6 +346,8 @@ fn run_boundary_part(rep: &mut Report) {
 #[derive(Clone, Debug)]
 enum ICase {
     Spread(u32, usize, usize),
+    /// per-dimension domains given by indices into DOMAINS
+    SpreadMixed(u32, Vec<usize>),
     Perm(u32, usize),
     Bits(u32, usize, f64),
     Empty,
@@ -361,6 +378,34 @@ fn run_init(c: &ICase) -> IObs {
                 }
                 if let Some(x) = i.solution().iter().find(|x| !(**x >= a && **x <= b)) {
                     bad = Some(format!("coordinate {:?} outside [{}, {}]", x, a, b));
+                }
+            }
+            (r, sizes, bad)
+        }
+        ICase::SpreadMixed(k, doms) => {
+            let problem = RealP { name: "i".into(), dom: doms.iter().map(|d| DOMAINS[*d].0..DOMAINS[*d].1).collect(), kind: FKind::Sphere, instr: Instr::new() };
+            let comp: Box<dyn Component<RealP>> = ini::RandomSpread::new::<RealP, f64>(*k);
+            let mut st = state_with::<RealP>(vec![vec![Individual::new(vec![0.0; doms.len()], so(0.0))]]);
+            let r = run_component(comp.as_ref(), &problem, &mut st).map_err(|e| format!("{:#}", e));
+            let pops = pops_of(&st);
+            let sizes = pops.iter().map(|p| p.len()).collect();
+            let mut bad = None;
+            for i in &pops[0] {
+                if pops.len() != 2 {
+                    break;
+                }
+                if i.is_evaluated() {
+                    bad = Some("evaluated".to_string());
+                }
+                if i.solution().len() != doms.len() {
+                    bad = Some(format!("dimension {}", i.solution().len()));
+                    continue;
+                }
+                for (j, x) in i.solution().iter().enumerate() {
+                    let (a, b) = DOMAINS[doms[j]];
+                    if !(*x >= a && *x <= b) {
+                        bad = Some(format!("coordinate {} = {:?} outside its own bounds [{}, {}] (solution {:?})", j, x, a, b, i.solution()));
+                    }
                 }
             }
             (r, sizes, bad)
@@ -422,6 +467,7 @@ fn run_init(c: &ICase) -> IObs {
 fn check_init(c: &ICase, out: &Outcome<IObs>) -> Option<(String, String)> {
     let (name, k, below) = match c {
         ICase::Spread(k, _, _) => ("RandomSpread", *k as usize, 1),
+        ICase::SpreadMixed(k, _) => ("RandomSpread", *k as usize, 1),
         ICase::Perm(k, _) => ("RandomPermutation", *k as usize, 0),
         ICase::Bits(k, _, _) => ("RandomBitstring", *k as usize, 0),
         ICase::Empty => ("Empty", 0, 0),
@@ -462,6 +508,12 @@ fn init_cases(thorough: bool) -> Vec<ICase> {
         }
         for n in 1..=(if thorough { 5 } else { 4 }) {
             v.push(ICase::Perm(k, n));
+        }
+        // domains that differ between dimensions, with and without equal neighbours
+        for doms in [vec![1usize, 1, 2], vec![0, 2], vec![2, 1, 1], vec![3, 0, 3], vec![1, 2, 2, 1]] {
+            if k > 0 && (thorough || doms.len() <= 3) {
+                v.push(ICase::SpreadMixed(k, doms));
+            }
         }
     }
     v
